@@ -36,6 +36,8 @@ func main() {
 		cmdWorker(os.Args[2:])
 	case "replay":
 		os.Exit(cmdReplay(os.Args[2:]))
+	case "selftest":
+		os.Exit(cmdSelftest())
 	case "list":
 		id, tier, _, _ := parseArgs(os.Args[2:])
 		p := props[id]
